@@ -39,7 +39,8 @@ class BlockDiagonalOperator(EndomorphicOperator):
         self._ops = tuple(operators[key] if key in operators else None for key in domain.keys())
         self._capability = self._all_ops
 
-        self._dtype = {kk: oo.sampling_dtype for kk, oo in operators.items()}
+        self._dtype = {kk: getattr(oo, "sampling_dtype", None)
+                       for kk, oo in operators.items()}
         if all(vv is None for vv in self._dtype.values()):
             self._dtype = None
         check_dtype_or_none(self._dtype, self._domain)
